@@ -17,6 +17,10 @@ def handle (line : String) : String :=
   | fn0 :: rest =>
     -- '!' (forked) and '^' (guard pages) only concern the implementation side of the protocol
     let fn := String.ofList (fn0.toList.dropWhile (fun c => c == '!' || c == '^'))
+    -- "<op>__ra<o>_<k>": the implementation side passes ONE register object as output o and input k; by value it is `<op>`
+    let fn := match fn.splitOn "__ra" with
+      | [base, suf] => if suf.toList.all (fun c => c.isDigit || c == '_') && !suf.isEmpty then base else fn
+      | _ => fn
     match parseArgs rest [] with
     | none => "err parse"
     | some args =>
